@@ -152,6 +152,34 @@ def out3 (i : Nat) : Nat := 10 + i
 def keep3 (k : Nat) : Bool := k != 20
 def okAll : V → Bool := fun _ => true
 def okNone : V → Bool := fun _ => false
+def rank3 (k : Nat) : Nat := if k < 10 then 0 else if k = 12 then 2 else 1
+/-- the hypotheses of the theorems hold for this instance: it is acyclic … -/
+theorem ranked3 : Ranked G3 rank3 := by
+  intro k t hg d hd _
+  unfold G3 at hg
+  split at hg
+  all_goals (try (cases hg; done))
+  all_goals (try (simp only [Option.some.injEq] at hg))
+  all_goals (try subst hg)
+  all_goals (try (simp [Tsk.refs] at hd))
+  all_goals (try (rcases hd with rfl | rfl))
+  all_goals (try subst hd)
+  all_goals (try decide)
+/-- … and `keep3` (everything but the unused key 20) is a legal result of `cull` for the three output keys -/
+theorem cullOK3 : CullOK G3 keep3 ((List.range 3).map out3) := by
+  refine ⟨by decide, ?_⟩
+  intro k t hk hg r hr
+  unfold G3 at hg
+  split at hg
+  all_goals (try (cases hg; done))
+  all_goals (try (simp only [Option.some.injEq] at hg))
+  all_goals (try subst hg)
+  all_goals (try (simp [Tsk.refs] at hr))
+  all_goals (try (rcases hr with rfl | rfl))
+  all_goals (try subst hr)
+  all_goals (try rfl)
+example : run (stdInterp okAll) (cull G3 keep3) (fun _ => none) 3 12 = run (stdInterp okAll) G3 (fun _ => none) 3 12 :=
+  C17_cull_preserves (stdInterp okAll) G3 keep3 _ (fun _ => none) cullOK3 3 12 rfl
 /-- `from_delayed(x.to_delayed(optimize_graph=True), verify_meta=True)` -/
 def fd3 : FromDelayed Nat :=
   { dfs := toDelayed G3 out3 3 true keep3, userDivisions := none, verifyMeta := true, partitions := none }
@@ -160,6 +188,11 @@ example : run (stdInterp okAll) fd3.graph (liftB (fun _ => none)) 4 (.out 2)
     = .frame [⟨2, 0, 6⟩, ⟨3, 0, 7⟩] := by decide
 example : run (stdInterp okNone) fd3.graph (liftB (fun _ => none)) 4 (.out 2) = .err := by decide
 example : BoundaryInterp (stdInterp okAll) okAll := ⟨fun _ => rfl, fun _ => rfl⟩
+/-- the round-trip theorem applied to this instance (all hypotheses discharged) -/
+example : run (stdInterp okAll) fd3.graph (liftB (fun _ => none)) (1+2) (.out 2)
+    = wrapSpec okAll true (run (stdInterp okAll) G3 (fun _ => none) (1+1) (out3 2)) :=
+  C17_delayed_roundtrip (stdInterp okAll) okAll ⟨fun _ => rfl, fun _ => rfl⟩ G3 rank3 ranked3 out3 3 true keep3 cullOK3
+    .none true fd3 rfl (fun _ => none) 2 (by decide) (by decide) 1
 /-- the culled graph really lost the unused key, the re-imported one has the renamed keys and all popped keys but… -/
 example : fd3.graph (.orig 20) = none ∧ (fd3.graph (.wrap 12)).isSome ∧ (fd3.graph (.orig 12)).isSome := by decide
 /-- one partition: the Delayed's own key is popped and not re-added by any other layer -/
@@ -264,6 +297,38 @@ example : run (stdInterp okAll) (stack G3 out3 U2) (stackInp (fun _ => none)) 5 
     = .frame [⟨2, 0, 6⟩, ⟨3, 0, 7⟩, ⟨1, 0, 5⟩] := by decide
 example : run (stdInterp okAll) (stack (persist out3 3 [some 0, some 2, some 3, some 3] res3).graph Sum.inr U2)
     (stackInp (liftInp (fun _ => none))) 5 (.inr 1) = .frame [⟨2, 0, 6⟩, ⟨3, 0, 7⟩, ⟨1, 0, 5⟩] := by decide
+/-- the transparency theorem applied to this instance (all hypotheses discharged) -/
+example : run (stdInterp okAll) (stack G3 out3 U2) (stackInp (fun _ => none)) (2 + 3) (.inr 1)
+    = run (stdInterp okAll) (stack (persist out3 3 [some 0, some 2, some 3, some 3]
+          (fun i => run (stdInterp okAll) G3 (fun _ => none) 3 (out3 i))).graph Sum.inr U2)
+        (stackInp (liftInp (fun _ => none))) (2 + 2) (.inr 1) := by
+  refine C17_persist_transparent (stdInterp okAll) G3 (fun _ => none) rank3 ranked3 out3 3 _ U2 (fun u => u)
+    ?_ ?_ 3 (by decide) ?_ (fun _ => none) 2 1 (by decide)
+  · intro u t hu u' hr hs
+    unfold U2 at hu
+    split at hu
+    all_goals (try (cases hu; done))
+    all_goals (try (rename_i heq; cases heq))
+    all_goals (try (simp only [Option.some.injEq] at hu))
+    all_goals (try subst hu)
+    all_goals (try (simp [Tsk.refs] at hr))
+    all_goals (try subst hr)
+    all_goals (try decide)
+  · intro u t hu i hr
+    unfold U2 at hu
+    split at hu
+    all_goals (try (cases hu; done))
+    all_goals (try (simp only [Option.some.injEq] at hu))
+    all_goals (try subst hu)
+    all_goals (try (simp [Tsk.refs] at hr))
+    all_goals (try (rcases hr with rfl | rfl))
+    all_goals (try decide)
+  · intro i hi
+    match i, hi with
+    | 0, _ => exact ⟨[⟨1, 0, 5⟩], by decide⟩
+    | 1, _ => exact ⟨[⟨2, 0, 6⟩], by decide⟩
+    | 2, _ => exact ⟨[⟨2, 0, 6⟩, ⟨3, 0, 7⟩], by decide⟩
+    | n+3, h => omega
 example : (persist out3 3 [some 0, some 2, some 3, some 3] res3).layer 12 = some (.const [⟨2, 0, 6⟩, ⟨3, 0, 7⟩])
     ∧ (persist out3 3 [some 0, some 2, some 3, some 3] res3).layer 0 = none
     ∧ (persist out3 3 [some 0, some 2, some 3, some 3] res3).npartitions = 3 := ⟨rfl, rfl, rfl⟩
@@ -302,18 +367,6 @@ example : run (stdInterp okAll) (legacyRoundtrip G3 out3 [none, none, none, none
     (liftInp (fun _ => none)) 4 (.inr 2) = .frame [⟨2, 0, 6⟩, ⟨3, 0, 7⟩]
     ∧ (legacyRoundtrip G3 out3 [none, none, none, none] true keep3).layer 20 = none
     ∧ ((legacyRoundtrip G3 out3 [none, none, none, none] false keep3).layer 20).isSome := by decide
-example : CullOK G3 keep3 ((List.range 3).map out3) := by
-  refine ⟨by decide, ?_⟩
-  intro k t hk hg r hr
-  unfold G3 at hg
-  split at hg
-  all_goals (try (cases hg; done))
-  all_goals (try (simp only [Option.some.injEq] at hg))
-  all_goals (try subst hg)
-  all_goals (try (simp [Tsk.refs] at hr))
-  all_goals (try (rcases hr with rfl | rfl))
-  all_goals (try subst hr)
-  all_goals (try rfl)
 end C17Example
 
 /-! ### (c) partition structure reported by the boundary constructs -/
@@ -328,12 +381,19 @@ theorem C17_fromGraph_structure {κ} (e : FromGraph κ) (h : e.keys.length = e.n
   refine ⟨e.keys[i], by simp [hi'], by simp [FromGraph.graph, fromGraphLayer, hi'], ?_⟩
   simp [FromGraph.daskKeys, hi]
 
+example : ∃ k, (persist C17Example.out3 3 [none, none, none, none] C17Example.res3).keys[1]? = some k ∧
+    (persist C17Example.out3 3 [none, none, none, none] C17Example.res3).graph (.inr 1) = some (.alias (.inl k)) ∧
+    Sum.inr 1 ∈ (persist C17Example.out3 3 [none, none, none, none] C17Example.res3).daskKeys :=
+  C17_fromGraph_structure _ rfl 1 (by decide)
+
 /-- `to_delayed`: one Delayed per partition, the `i`-th one has the `i`-th output key — both variants -/
 theorem C17_toDelayed_keys {κ} (G : Graph κ) (out : Nat → κ) (n : Nat) (og : Bool) (keep : κ → Bool) :
     (toDelayed G out n og keep).length = n ∧
     (toDelayed G out n og keep).map Delayed.key = (List.range n).map out := by
   refine ⟨toDelayed_length G out n og keep, ?_⟩
   simp [toDelayed, List.map_map, Function.comp_def]
+
+example : (toDelayed C17Example.G3 C17Example.out3 3 true C17Example.keep3).map Delayed.key = [10, 11, 12] := rfl
 
 /-- `from_delayed`: an accepted call reports `len(dfs)` partitions; its divisions are the ones passed along, or
     "unknown with the right length" (`(None,) * (len(dfs) + 1)`) when none were passed. -/
@@ -428,26 +488,6 @@ theorem C17_checkMeta_decision {α} (mt x : Sch) (v : α) :
   cases h : metaMatches mt x
   · right; simp [checkMeta, h]
   · left; simp [checkMeta, h]
-
-theorem equalDtypes_self (a : DType) : equalDtypes (some a) (some a) = true := by
-  cases a with
-  | num i => rfl
-  | other i => simp [equalDtypes]
-  | cat c => cases c <;> simp [equalDtypes]
-
-theorem lookup_isSome_of_mem (l : List (String × DType)) (p : String × DType) (hp : p ∈ l) :
-    (l.lookup p.1).isSome = true := by
-  induction l with
-  | nil => cases hp
-  | cons q t ih =>
-    simp only [List.lookup]
-    by_cases hq : p.1 = q.1
-    · simp [hq]
-    · have hb : (p.1 == q.1) = false := by simp [hq]
-      rw [hb]
-      rcases List.mem_cons.mp hp with he | he
-      · exact absurd (by rw [he]) hq
-      · exact ih he
 
 /-- a partition whose schema is the declared one always passes (DataFrame meta) -/
 theorem C17_metaMatches_refl (mt : Sch) (h : mt.kind = 0) : metaMatches mt mt = true := by
